@@ -243,12 +243,14 @@ def _kind_matcher(kind):
             return False
         alg = _algebra_text(G.to_sparql(case["q"]))
         probs = G.alg_problems(G.query_pattern(G.parse_sx(alg)))
-        if kind not in probs:
+        if not (set(kind) & probs):
             return False
         out = core.run_driver(__import__("c04"), model_lines(case))
         return select_model_obs(case, out)[0] == result["obs"][0]
     return m
 
 
-MATCHERS = {"vars_may_not_must": _kind_matcher("K1"), "vars_values_missing": _kind_matcher("K2"),
-            "vars_expression_only": _kind_matcher("K3")}
+# K3 ("listed in `_vars` but never bound by the sub-pattern"): the FILTER-expression case was repaired on main (C04-F14);
+# what is left of it (un-projected sub-select variables, variables of a nested OPTIONAL's condition) is the same defect
+# as K1 — `_vars` is not the set of variables the solution at hand binds — and is matched with it.
+MATCHERS = {"vars_may_not_must": _kind_matcher({"K1", "K3"}), "vars_values_missing": _kind_matcher({"K2"})}
